@@ -610,6 +610,17 @@ def discharge_R(ctx, site):
                     ds = defs_of(mir, bl)
                     if len(ds) == 1 and "r" in ds[0][1] and ds[0][1]["r"].get("rv") == "ref":
                         n = array_len(local_ty(mir, ds[0][1]["r"]["p"]["l"]))
+            if n is not None and ity.startswith(("std::ops::RangeTo<", "std::ops::RangeToInclusive<", "std::ops::RangeFrom<")):
+                # `..e` / `..=e` / `s..` with an evaluable bound inside a fixed array length
+                il = operand_local(args[1])
+                ds = defs_of(mir, il) if il is not None else []
+                if len(ds) == 1 and "r" in ds[0][1] and ds[0][1]["r"].get("rv") == "agg":
+                    ops = ds[0][1]["r"]["ops"]
+                    rs = [rng(ctx, mir, x) for x in ops]
+                    if len(rs) == 1 and rs[0] and rs[0][0] >= 0:
+                        hi = rs[0][1] + (1 if "Inclusive" in ity else 0)
+                        if hi <= n:
+                            return "constant bound %s of a %s within array length %d" % (rs[0], ity.split("<")[0].split("::")[-1], n)
             if n is not None and ity.startswith("std::ops::Range<"):
                 il = operand_local(args[1])
                 ds = defs_of(mir, il) if il is not None else []
